@@ -166,3 +166,4 @@ pub fn guarded<F: FnOnce() -> String + std::panic::UnwindSafe>(f: F) -> String {
 pub mod act;
 pub mod c03;
 pub mod c05;
+pub mod c13;
